@@ -115,8 +115,8 @@ check('C06', TV,
       'from the TPTP BNF and z3 decides, over ALL interpretations and assignments (unbounded integers), that the text under '
       'the standard interpretation of the preamble symbols has the truth value of the source formula. Syntax complaints of '
       'the reader are reported only when the repo\'s tptp4X rejects the text too. The integer-numeral kernel is additionally '
-      'covered for every isize by a Kani harness in the thorough tier.',
-      BASE_NOTE + ' TPTP reader: av/tff.py.', 'SMT (z3) equivalence of source formula vs re-read TPTP text; Kani (CBMC) for the numeral kernel',
+      'decided for EVERY isize: its MIR (nightly -Zunpretty=mir, regenerated on every run) is translated to 64-bit bit-vector SMT.',
+      BASE_NOTE + ' TPTP reader: av/tff.py.', 'SMT (z3) equivalence of source formula vs re-read TPTP text; MIR->bit-vector SMT for the numeral kernel',
       'DESIGN.md 5 (C06)')
 check('C09', 'other',
       'Every problem text emitted for a corpus of tasks chosen for their identifier shapes (and samples of the C02/C03 '
